@@ -937,9 +937,11 @@ impl CallData {
     const NARGS_SHIFT: u32 = 32 - Self::NARGS_NBITS;
     const NARGS_MASK: u32 = 0b11111 << Self::NARGS_SHIFT;
     const ADDR_MASK: u32 = !Self::NARGS_MASK;
+    pub(crate) const MAX_NARGS: usize = (1 << Self::NARGS_NBITS) - 1;
 
     pub(crate) fn new(nargs: u32, addr: u32) -> Self {
         debug_assert!(addr <= Self::ADDR_MASK);
+        debug_assert!(nargs as usize <= Self::MAX_NARGS);
         let repr = addr | nargs << Self::NARGS_SHIFT;
         CallData(repr)
     }
